@@ -6,28 +6,38 @@ import re
 
 import lib
 
-TARGETS = ["Props/C15.v", "Naming/SyncScript.v"]
+TARGETS = ["Props/C15.v", "Naming/SyncScript.v", "Naming/SyncHttp.v"]
 
 MANIFEST = dict(
     text="PARTIAL. Proved (Rocq, all states/inputs of the model): the delay actor sends exactly the last operation per key "
          "(batch_last_op_wins) and how a batch is applied; a pointwise specification of one anti-entropy exchange "
          "SyncDistroClientInstances -> QueryDistroInstanceSnapshot -> Snapshot, hence distro_round_repairs, preservation of "
          "the receiver invariant, quiescent_fixpoint (no client operations, queues drained, one round => all live nodes "
-         "answer the same for every key, for any number of nodes), dead_node_clients_removed and rejoin_receives_snapshot. "
-         "The model (gRPC ephemeral instances; registry, client_set bookkeeping, delay map, per-pair FIFO queues of the "
-         "messages the code really sends) is tied to the code by scripts run on real NamingActor / "
-         "ClusterInstanceDelayNotifyActor / InnerNodeManage / ClusteSyncSender actors (sync traffic captured instead of "
-         "sent) and compared state by state and message by message with the model, plus an independent convergence oracle "
-         "computed from the operation log.",
-    note="Runtime-only (NOT proved, NOT observed here): liveness under real message delay and loss (ClusteSyncSender "
-         "retries once after 100 ms, requests are concurrent so per-pair FIFO order is an assumption), the 500 ms / 3 s / "
-         "12 s / 15 s timers and the failure-detection timing, HTTP instances (routed writes + 15 s beat batches), persistent "
-         "instances (Raft), a 3-process cluster on loopback.  handle_naming_route is transcribed in the harness (tied to the "
-         "source by a hash of the function text).  client_instance_set is taken as the index of the registry by client id "
-         "(C11), re-checked at every dump.  Known finding: the anti-entropy exchange compares key sets only, so a payload "
-         "change missed with a lost batch is never repaired.",
-    technique="Rocq proof (pointwise specs of the receive steps, induction over the senders of a round) + model/implementation "
-              "correspondence on operation scripts + convergence oracle",
+         "answer the same for every key, for any number of nodes), dead_node_clients_removed, rejoin_receives_snapshot; for "
+         "HTTP instances (on top of the C14 ownership theorem, all live nodes sharing one view): http_register_converges, "
+         "http_deregister_converges, update+remove of one key inside one 500 ms window, and the refutations "
+         "stale_snapshot_restores_deregistered / stale_snapshot_overwrites_update. The gRPC model is tied to the code by "
+         "scripts run on real NamingActor / ClusterInstanceDelayNotifyActor / InnerNodeManage / ClusteSyncSender actors "
+         "(sync traffic captured instead of sent) and compared state by state and message by message with the model. "
+         "The HTTP path is observed on THREE REAL rnacos PROCESSES on loopback: seeded register / update / deregister / "
+         "beat of ephemeral and persistent instances in several namespaces / groups / services addressed to arbitrary "
+         "nodes, without fault and with kill -9, restart and SIGSTOP (> 18 s) of a node; after the operations stop and the "
+         "sync interval has passed /nacos/v1/ns/instance/list of every live node is compared with the other nodes and "
+         "with the sequential spec of the acknowledged operations.",
+    note="Runtime-only (NOT proved): liveness under real message delay and loss (ClusteSyncSender retries once after 100 ms, "
+         "requests are concurrent so per-pair FIFO order is an assumption), the 500 ms / 3 s / 12 s / 15 s timers, nodes with "
+         "different live-node views.  gRPC clients are not available offline: the gRPC part stays at component level; "
+         "handle_naming_route is transcribed in the harness (tied to the source by a hash of the function text).  "
+         "client_instance_set is taken as the index of the registry by client id (C11), re-checked at every dump.  Not judged "
+         "in the process scenarios: expiry of instances whose client stopped beating (C13), unacknowledged operations.  "
+         "Known findings: the gRPC anti-entropy compares key sets only (distro-diff-ignores-values); HTTP state transfers "
+         "(snapshots, 15 s beat batches) are applied unconditionally, so an older state can follow a newer acknowledged "
+         "update / deregistration (http-sync-stale-state:snapshot, :ownership) - discrepancies of instances whose last "
+         "acknowledged operation lies in such a window are reported as known findings, all others are violations (after one "
+         "retry with doubled waits; a discrepancy that disappears then is reported as inconclusive).",
+    technique="Rocq proof (pointwise specs of the receive steps, induction over the senders of a round, C14 ownership theorem "
+              "for the HTTP path) + model/implementation correspondence on operation scripts + convergence oracle + "
+              "multi-process scenarios on the real binary",
     design="3/C15",
 )
 
